@@ -134,6 +134,13 @@ func c06Setup(r *drv.Run, i int, rng *gen.Rng) *c06Layout {
 	}
 	// a bystander that nothing may touch
 	os.WriteFile(filepath.Join(l.dir, "bystander.dat"), []byte("do not touch"), 0o600)
+	// ... and bystanders called like the backup, temporary and swap files tools keep next to a file they rewrite:
+	// the user's own, not the engine's
+	for _, name := range l.names {
+		for _, bn := range []string{name + ".bak", name + "~", name + ".tmp", name + ".orig", name + ".new", name + ".old", "." + name + ".swp", "#" + name + "#", name + ".vored.tmp", name + ".vored~", name + ".vored.bak"} {
+			os.WriteFile(filepath.Join(l.dir, bn), []byte("the user's own "+bn), 0o644)
+		}
+	}
 	os.MkdirAll(filepath.Join(l.dir, "subdir"), 0o755)
 	os.WriteFile(filepath.Join(l.dir, "subdir", "deep.txt"), []byte("abab"), 0o644)
 	l.before = fsmon.Take(l.dir)
@@ -198,7 +205,7 @@ func C06(r *drv.Run) {
 		n = 9000
 		ncli = 250
 	}
-	r.Rule = fmt.Sprint("RunFiles on scratch directories: ", len(c06Commands), " commands") + " (replacement shorter / longer / empty / identical to the matched text, a with-list of names that are unbound for all or some matches or map-valued (no value: the match is deleted), zero matches, adjacent matches, match at offset 0 and at EOF, captures, a transform, two commands over the same files, find commands) x 1..2 files of sizes 0, 1, 7, 40, 200, 4095..4097, 8191, 8193, 10 000 x {NOTHING, NEW, OVERWRITE}, plus large files (up to ~400 KB) whose unmatched stretches before, between and after 1..3 matches are exactly 16384 / 32768 / 65536 / 131072 bytes or one byte off, and files named through a symbolic link to a directory elsewhere followed by `..` (a decoy of the same size sits at the lexically cleaned place), with stale longer .vored files and bystander files present. Oracle: directory snapshot (type, size, mode, SHA-256, inode) before/after must differ by exactly the change set the mode allows, and the written text must equal the splice of the original bytes with the replacements of the in-memory run at its spans; every file the library opens for writing (hook H5) must be in the allowed set. Sessions: 3..6 steps in ONE worker process over the same two paths - a file is rewritten between steps (often with different bytes of the SAME size), then one or two literal replace commands run in a random mode; the expected content of every file after every step comes from a harness-side model (sequential ReplaceAll for OVERWRITE, last command on the unchanged source for NEW), so nothing remembered from an earlier call or command may leak into a later one. Directory arguments with unusual names (ending in one or two backslashes, with a blank, named like a file; plain, with a trailing and a doubled slash), each with decoy files in the parent directory named like a wrong join of directory and entry name: only the files inside the directory change. Several names of one file: a directory argument whose entries include hard links and symbolic links to a sibling (and a list naming one file twice), literal replace commands in every mode - the entries are handled in name order and the second name of a file finds what the first one left (harness-side model). Failing calls: a replace whose transform divides by zero on a match of the second (or first, or only) file - after the call every file is either untouched or holds exactly the splice of a file whose replacements all exist; the file whose replacement could not be computed, and its stale .vored, are untouched (the panic itself is known finding K1 and not judged here). Thorough tier additionally drives the built CLI under strace and checks every path opened for writing/creating/truncating, renamed, unlinked or truncated. Non-trivial = a replace run with >= 1 match in mode NEW or OVERWRITE whose output was verified; distinct by (command, layout, mode). The command line tool with -replace-mode given twice (every ordered pair of NOTHING, NEW, OVERWRITE and the empty value): the mode given last is in force, judged by what is on disk afterwards. Thorough tier: one unmatched stretch of 2^30 + 14 000 bytes (more than one read(2) returns) behind the only match of `replace top 1` in a sparse file, modes NEW and OVERWRITE, output compared with the input in 4 MiB pieces."
+	r.Rule = fmt.Sprint("RunFiles on scratch directories: ", len(c06Commands), " commands") + " (replacement shorter / longer / empty / identical to the matched text, a with-list of names that are unbound for all or some matches or map-valued (no value: the match is deleted), zero matches, adjacent matches, match at offset 0 and at EOF, captures, a transform, two commands over the same files, find commands) x 1..2 files of sizes 0, 1, 7, 40, 200, 4095..4097, 8191, 8193, 10 000 x {NOTHING, NEW, OVERWRITE}, plus large files (up to ~400 KB) whose unmatched stretches before, between and after 1..3 matches are exactly 16384 / 32768 / 65536 / 131072 bytes or one byte off, and files named through a symbolic link to a directory elsewhere followed by `..` (a decoy of the same size sits at the lexically cleaned place), with stale longer .vored files and bystander files present. Oracle: directory snapshot (type, size, mode, SHA-256, inode) before/after must differ by exactly the change set the mode allows, and the written text must equal the splice of the original bytes with the replacements of the in-memory run at its spans; every file the library opens for writing (hook H5) must be in the allowed set. Sessions: 3..6 steps in ONE worker process over the same two paths - a file is rewritten between steps (often with different bytes of the SAME size), then one or two literal replace commands run in a random mode; the expected content of every file after every step comes from a harness-side model (sequential ReplaceAll for OVERWRITE, last command on the unchanged source for NEW), so nothing remembered from an earlier call or command may leak into a later one. Directory arguments with unusual names (ending in one or two backslashes, with a blank, named like a file; plain, with a trailing and a doubled slash), each with decoy files in the parent directory named like a wrong join of directory and entry name: only the files inside the directory change. Several names of one file: a directory argument whose entries include hard links and symbolic links to a sibling (and a list naming one file twice), literal replace commands in every mode - the entries are handled in name order and the second name of a file finds what the first one left (harness-side model). Failing calls: a replace whose transform divides by zero on a match of the second (or first, or only) file - after the call every file is either untouched or holds exactly the splice of a file whose replacements all exist; the file whose replacement could not be computed, and its stale .vored, are untouched (the panic itself is known finding K1 and not judged here). Thorough tier additionally drives the built CLI under strace and checks every path opened for writing/creating/truncating, renamed, unlinked or truncated. Non-trivial = a replace run with >= 1 match in mode NEW or OVERWRITE whose output was verified; distinct by (command, layout, mode). Next to every searched file stand bystanders called like backup, temporary and swap files of it (.bak ~ .tmp .orig .new .old .swp #..# .vored.tmp .vored~ .vored.bak): nothing may touch them. The command line tool with -replace-mode given twice (every ordered pair of NOTHING, NEW, OVERWRITE and the empty value): the mode given last is in force, judged by what is on disk afterwards. Thorough tier: one unmatched stretch of 2^30 + 14 000 bytes (more than one read(2) returns) behind the only match of `replace top 1` in a sparse file, modes NEW and OVERWRITE, output compared with the input in 4 MiB pieces."
 	r.Assumptions = []string{
 		"the spans and replacements spliced are those of Run on the same bytes (C01/C05/C07 judge those)",
 		"with two replace commands in one source each command rewrites from the file as the previous command left it (OVERWRITE) or from the unchanged source (NEW): the expected text is computed accordingly",
